@@ -152,7 +152,10 @@ def run(pid, tier, seed, res, seeds_extra=None, only=None):
                     tawazi.cfg.RUN_DEBUG_NODES = False
                 r["executed"] = sorted({e[1] for e in ctl.trace if e[0] == "XENTER"})
                 r["pre"] = sorted(set(ctl.cfgs[0]["pre"])) if ctl.cfgs else []
+                r["stored"] = sorted(set(ctl.cfgs[0]["results_keys"])) if ctl.cfgs else []
                 r["run_status"] = st[0]
+                if st[0] == "raise":
+                    r["run_error"] = "%s: %s" % (type(st[1]).__name__, str(st[1])[:120])
                 if st[0] == "ok" and isinstance(st[1], tuple):
                     r["none_pattern"] = [v is None for v in st[1]]
             qres.append(r)
@@ -341,6 +344,16 @@ def run(pid, tier, seed, res, seeds_extra=None, only=None):
             dbg_in = [x for x in r["nodes"] if t["debug"].get(x)]
             if dbg_in:
                 res.hit("C13", "monitor", "%s with RUN_DEBUG_NODES off selects debug node(s) %s" % (qdesc(q), dbg_in), dict(base, kind="monitor", query=q))
+        if "executed" in r and r.get("run_status") == "raise" and q.get("in_hypothesis"):
+            res.hit("C12", "monitor", "%s: the selection is accepted and the run then raises (%s) instead of returning the values of the nodes it ran and None for the others" % (qdesc(q), r.get("run_error")), dict(base, kind="monitor", query=q))
+        if "executed" in r and r.get("run_status") == "ok" and r.get("none_pattern") is not None:
+            have_ = set(r["executed"]) | set(r["pre"]) | set(r.get("stored", []))
+            slots_ = ["n%d" % i_ for i_ in range(case["n"])] + ["n%d" % j_ for j_ in case.get("idx_out", [])]
+            if len(slots_) == len(r["none_pattern"]):
+                wrong_ = [(k_, s_) for k_, (s_, isn_) in enumerate(zip(slots_, r["none_pattern"])) if isn_ != (s_ not in have_)]
+                if wrong_:
+                    k_, s_ = wrong_[0]
+                    res.hit("C12", "monitor", "%s: output %d (%s of %s) is %s although the node %s" % (qdesc(q), k_, "an indexed part" if k_ >= case["n"] else "the value", s_, "None" if r["none_pattern"][k_] else "a value", "ran or was already computed" if s_ in have_ else "was left out"), dict(base, kind="monitor", query=q))
         if "executed" in r and r.get("run_status") == "ok":
             expect = sorted(set(r["nodes"]) - set(r["pre"]))
             if r["executed"] != expect:
